@@ -9,12 +9,17 @@ LEAN_MODULES = ["MpirProofs.Props.C07_hgcd"]
 THEOREMS = ["Mpir.C07h.matrix22_mul_correct", "Mpir.C07h.hgcd_matrix_init_correct", "Mpir.C07h.hgcd_matrix_update_q_correct",
             "Mpir.C07h.hgcd_matrix_mul_1_correct", "Mpir.C07h.hgcd_matrix_mul_correct",
             "Mpir.C07h.matrix22_mul1_inverse_vector_correct", "Mpir.C07h.hgcd_matrix_adjust_correct",
-            "Mpir.C07h.hgcd_step_correct", "Mpir.C07h.mpn_hgcd_correct_partial", "Mpir.C07h.mpn_hgcd_reduce_correct_partial"]
+            "Mpir.C07h.hgcd_step_correct", "Mpir.C07h.mpn_hgcd_correct_partial", "Mpir.C07h.mpn_hgcd_reduce_correct_partial",
+            "Mpir.C07h.hgcd_matrix_apply_wrap_exact"]
 TRUSTED = ["hand-written value-level models lean/Mpir/Model/Hgcd.lean of the half-gcd layer (limb arrays as naturals with the size fields tracked; "
            "dropped carries modelled as reductions modulo the destination size), tied by exact comparison of every output on every run",
            "mpn_mulmod_bnm1 inside hgcd_matrix_apply is modelled by its contract (exact product when it fits, else a representative modulo B^n - 1); "
            "wrap_exact proves the result independent of the representative"]
-ASSUMPTIONS = []
+ASSUMPTIONS = ["mpn_hgcd_correct_partial / mpn_hgcd_reduce_correct_partial: operands below HGCD_REDUCE_THRESHOLD limbs (above it mpn_hgcd_reduce goes through "
+               "mpn_hgcd_appr + hgcd_matrix_apply, whose truncation analysis is not proved: model compared exactly on every run, wrap-around exactness proved separately) "
+               "and HGCD_THRESHOLD >= 8 (tuner minimum 30); the bound M->n < M->alloc and mpn_hgcd_appr rest on the differential run (markers !msize / !oob)",
+               "mpn_hgcd with n = 3, 4 may return 0 after having recorded a subtraction (b = 2a, top limbs below 4): the model mirrors it; the theorems state the consistency "
+               "M' = M E, (a;b) = E(a';b') for that path and prove it unreachable for n >= 5 (hgcdStep_unchanged)"]
 RULE_HGCD = ("half-gcd layer: matrices as products of elementary matrices from chosen quotient sequences (1s, one-limb extremes, multi-limb), "
              "operands built backwards as (a;b) = M(a';b'); every sign branch of the Strassen schedule from a small pool of entries around equality and around B^n; "
              "sizes +-2 around MATRIX22_STRASSEN / HGCD / HGCD_APPR thresholds; subdiv_step corner cases (a = b, b = 2a, remainder below s, carry on add-back)")
